@@ -164,8 +164,9 @@ def reusing(items):
         yield holder
 
 
-def run_sm(mod, proto, role, seq, k):
-    """Drives the generated abstract base class with stub implementations. Returns per-action outcomes."""
+def run_sm(mod, proto, role, seq, k, real=None):
+    """Drives the generated abstract base class with stub implementations, or (real = "binary" | "ndjson") the generated reader / writer of that
+    format over an in-memory stream. Returns per-action outcomes."""
     base = getattr(mod, proto + ("WriterBase" if role == "w" else "ReaderBase"))
     names = []
     probe_state = 0
@@ -201,13 +202,36 @@ def run_sm(mod, proto, role, seq, k):
                     impls[n] = (lambda self, c=cnt: iter(range(c)))
             else:
                 impls[n] = (lambda self, *a: None)
-    obj = type("Stub", (base,), impls)()
+    if real is None:
+        obj = type("Stub", (base,), impls)()
+    else:
+        import io
+        prefix = "Binary" if real == "binary" else "NDJson"
+        mk = (lambda: io.BytesIO()) if real == "binary" else (lambda: io.StringIO())
+        wcls, rcls = getattr(mod, prefix + proto + "Writer"), getattr(mod, prefix + proto + "Reader")
+        if role == "w":
+            obj = wcls(mk())
+        else:
+            # a complete stream with k[i] items in stream step i (what the stub implementation delivers), written by the generated writer
+            buf = mk()
+            w = wcls(buf)
+            for i, nm in enumerate(names):
+                cnt = k[i] if i < len(k) else None
+                getattr(w, "write_" + nm)(7 if cnt is None else list(range(cnt)))
+            w.close()
+            obj = rcls(io.BytesIO(buf.getvalue()) if real == "binary" else io.StringIO(buf.getvalue()))
     out = []
     for tok in seq:
         try:
             op = tok[0]
             if op == "c":
                 obj.close()
+                out.append("ok")
+                continue
+            if op == "X":
+                # leaving a `with` block without an exception in flight
+                obj.__enter__()
+                obj.__exit__(None, None, None)
                 out.append("ok")
                 continue
             body = tok[1:]
@@ -373,7 +397,7 @@ def main():
                     json.dump({"names": names, "rows": out}, f)
                 res = {"ok": True}
             elif cmd["op"] == "statemachine":
-                res = {"ok": True, "results": [run_sm(mod, cmd["proto"], cmd["role"], seq, cmd.get("k", [])) for seq in cmd["seqs"]]}
+                res = {"ok": True, "results": [run_sm(mod, cmd["proto"], cmd["role"], seq, cmd.get("k", []), cmd.get("real")) for seq in cmd["seqs"]]}
             elif cmd["op"] == "schema":
                 p = protos[cmd["proto"]]
                 res = {"ok": True, "schema": p[("Binary", "Writer")].schema}
